@@ -68,6 +68,8 @@ fn run_cmd(cmd: &str, opt: &HashMap<String, String>) -> i32 {
         "comp" => comp::stream_comp(&opt),
         "oracle" => oracle::run(&opt),
         "cliexpect" => cli::run(&opt),
+        "band" => oracle::band(&opt),
+        "capibig" => oracle::capibig(&opt),
         _ => { eprintln!("unknown command {}", cmd); 2 }
     };
     code
